@@ -555,7 +555,7 @@ func Rec(t *rapid.T, o *Opts) wm.Rec {
 		typ = rapid.SampledFrom([]uint16{0, 11, 22, 34, 38, 40, 54, 66, 103, 251, 252, 253, 254, 259, 262, 1000, 32770, 65279, 65281, 65535, wm.TPrivate, wm.TPrivate}).Draw(t, "utype")
 	}
 	r := RecOfType(t, typ, o)
-	if o.NoRdata && rapid.IntRange(0, 39).Draw(t, "nordata") == 0 {
+	if o.NoRdata && Rarely(t, 5) {
 		if l, _ := wm.LayoutOf(typ); !wm.EmptyRdataIsValue(l) {
 			r.NoRdata = true
 			r.Fields = nil
